@@ -1711,3 +1711,41 @@ package resolve
 //@   ensures {an.existing.error.array.is.kept} old(l.errors) != nil ==> l.errors == old(l.errors)
 //@   ensures {initialised} l.errors != nil
 //@   modifies l.errors, global(jver), global(ext)
+
+// ----------------------------------------------------------------------------------------------
+// C15: a variable the client omitted stays omitted. A context variable is reported undefined iff it is absent from
+// the request's variables (it is rendered as null in the template, and its name is recorded so that the data source
+// can remove that null again); exactly the undefined ones are recorded.
+//@ func VariableRenderer.RenderVariable
+//@   modifies global(ext), global(jver), count(ioWrite), count(printed), count(errorAdded)
+//@   trusted interface method (renders a JSON value into the template writer)
+//@ func InputTemplateWriter.Write
+//@   modifies global(ext)
+//@   emits templateWrite
+//@   trusted interface method (template output buffer)
+//@ func Context.VariablesView
+//@   pure
+//@   trusted accessor of the request's variables (read-only view)
+//@ func InputTemplate.renderContextVariable
+//@   requires ctx != nil
+//@   ghost var g_absent bool = false
+//@   at call VariablesView.Get: ghost g_absent = result == nil
+//@   ensures {undefined.iff.absent.from.the.request.variables} result0 == g_absent
+//@   ensures {an.absent.variable.renders.one.null.and.no.error} result0 ==> result1 == nil && count(templateWrite) == old(count(templateWrite)) + 1
+//@   modifies *, count(templateWrite), count(ioWrite), count(printed), count(errorAdded)
+
+//@ func InputTemplate.renderSegments
+//@   requires ctx != nil && undefinedVariables != nil
+//@   ghost var g_undef bool = false
+//@   ghost var g_nUndef int = 0
+//@   ghost var g_nRec int = 0
+//@   at call InputTemplate.renderContextVariable: ghost g_undef = result0
+//@   at call InputTemplate.renderContextVariable: ghost g_nUndef = ite(result0, g_nUndef + 1, g_nUndef)
+//@   at call append: assert {only.undefined.context.variables.are.recorded} g_undef
+//@   at call append: ghost g_nRec = g_nRec + 1
+//@   at call append: ghost g_undef = false
+//@   ensures {every.undefined.context.variable.is.recorded.exactly.once} g_nRec == g_nUndef
+//@   modifies *, count(*)
+//@   safety no-bounds
+//@   loop 0:
+//@     invariant g_nRec == g_nUndef && !g_undef
